@@ -28,6 +28,7 @@ def project(n):
         return {
             "src/a1.f90": "module alpha\n  !! first\n  use gamma\n  use beta\ncontains\n  subroutine same(x)\n    !! same in alpha\n    integer :: x\n    call helper(x)\n    call other(x)\n  end subroutine same\nend module alpha\n",
             "src/b2.f90": "module beta\n  !! second\ncontains\n  subroutine same(y)\n    !! same in beta\n    integer :: y\n  end subroutine same\n  subroutine helper(z)\n    integer :: z\n  end subroutine helper\nend module beta\n",
+            "src/d4.f90": "subroutine driver(k)\n  !! an external procedure with USE statements of its own\n  use beta, only: helper\n  use gamma\n  integer :: k\n  call helper(k)\n  call other(k)\nend subroutine driver\n",
             "src/c3.f90": "module gamma\n  !! third\n  type :: same\n    integer :: v\n  end type same\ncontains\n  subroutine other(z)\n    integer :: z\n  end subroutine other\nend module gamma\n",
         }
     if n == 1:
@@ -36,6 +37,7 @@ def project(n):
             "src/m2.f90": "module m2\ncontains\n  function g(x) result(r)\n    integer :: x, r\n    r = x\n  end function g\n  function f2(x) result(r)\n    integer :: x, r\n    r = x\n  end function f2\nend module m2\n",
             "src/m3.f90": "module m3\n  type :: base\n    integer :: b\n  end type base\ncontains\n  function h(x) result(r)\n    integer :: x, r\n    r = x\n  end function h\nend module m3\n",
             "src/p.f90": "program main\n  use m1\n  use m2\n  use m3\n  integer :: i\n  i = f(1) + g(2) + h(3)\ncontains\n  subroutine f2()\n  end subroutine f2\nend program main\n",
+            "src/q.f90": "subroutine driver(k)\n  !! an external procedure with USE statements of its own\n  use m2, only: g\n  use m3\n  integer :: k\n  k = g(k) + h(k)\nend subroutine driver\n",
         }
     if n == 3:
         # layered USE / call graph: several nodes with further edges at the second and third hop
@@ -97,7 +99,7 @@ def run_cli_variant(args):
     with fordrun.tempdir() as d:
         root = os.path.join(d, "p")          # same relative layout for every variant
         fordrun.write_files(root, files)
-        meta = dict(META, parallel=parallel)
+        meta = dict(META, parallel=parallel, graph_dir="./graphs")      # graph sources and images are output, too
         if history == "stale-other":
             other = os.path.join(d, "other")
             fordrun.write_files(other, project((n + 1) % 4))
@@ -107,7 +109,9 @@ def run_cli_variant(args):
         rc, out = site.run_cli(root, meta, hashseed=seed)
         if rc != 0:
             return {"_error": out[-400:]}
-        return site.tree_hashes(os.path.join(root, "doc"))
+        h = site.tree_hashes(os.path.join(root, "doc"))
+        h.update({"graphs/" + k: v for k, v in site.tree_hashes(os.path.join(root, "graphs")).items()})
+        return h
 
 
 def compare(ref, other):
